@@ -752,6 +752,159 @@ def _long_points(seed):
     return pts
 
 
+# ------------------------------------------------------------------ exact lengths at the refill boundaries
+
+
+def boundary_targets():
+    """compressed lengths (magic + version + words) at which the reader's buffer runs dry exactly: the
+    first read, and each later top-up"""
+    return [FIRST_READ, FIRST_READ + REFILL - 3, FIRST_READ + 2 * REFILL - 3]
+
+
+def boundary_streams(h, seed, target, window=12):
+    """valid COMPLETE streams whose compressed length takes every attainable value (5 + 4k bytes) within
+    +-window bytes of `target`: a common body of full-size blocks (all block commands), then frames of
+    ever smaller blocks up to just below the window, then 0, 1, 2, ... single-sample frames + QUIT"""
+    import copy
+
+    vals = Values.get(seed)
+    enc = make_encoder(h)
+    limit = 8 * (target - 5 - window) - 40
+
+    def frame(e, op):
+        for _ in range(1 if op[0] == "BITSHIFT" else h["nchan"]):
+            try:
+                apply_op(e, op, vals)
+            except S.InvalidTrace:
+                apply_op(e, FILLER, vals)
+
+    k = 0
+    while True:
+        e = copy.deepcopy(enc)
+        frame(e, LONG_CYCLE[k % len(LONG_CYCLE)])
+        if e.w.n > limit:
+            break
+        enc = e
+        k += 1
+    b = h["bs0"]
+    while b > 1:
+        b = max(1, b // 4)
+        enc.blocksize_cmd(b)
+        while True:
+            e = copy.deepcopy(enc)
+            frame(e, ["DIFF", 2, "min"])
+            if e.w.n > limit:
+                break
+            enc = e
+    found = {}
+    for tweak in range(4):       # 0..3 BITSHIFT commands (a few bits each) shift the whole tail
+        tail = copy.deepcopy(enc)
+        for t in range(tweak):
+            tail.bitshift_cmd((2, 0, 1)[t])
+        for j in range(0, 400):
+            e = copy.deepcopy(tail)
+            e.quit()
+            L = len(e.sphere_file()) - 1024
+            if abs(L - target) <= window and L not in found:
+                found[L] = e
+            if L > target + window:
+                break
+            frame(tail, ["DIFF", 2, "min"])
+    return found
+
+
+def _boundary_point(p, seed):
+    h, target = p["header"], p["target"]
+    only = p.get("length")
+    found = boundary_streams(h, seed, target)
+    viol = []
+    evals = 0
+    for L in sorted(found):
+        if only is not None and L != only:
+            continue
+        evals += 1
+        case = dict(kind="boundary", header=h, target=target, length=L)
+        v = check_decode(h, found[L], case)
+        for x in v:
+            x["tags"]["stage"] = "refill"
+            x["tags"]["bytes_past_boundary"] = L - target
+        viol.extend(v)
+    return core.result(viol, nontrivial=(target + 1 in found or target in found) and len(found) >= 4, evals=evals,
+                       nontrivial_count=evals, impl_calls=evals, obs=sorted(L - target for L in found),
+                       sample=dict(header=h, target=target, lengths=sorted(found)))
+
+
+# ------------------------------------------------------------------ every kind of file object
+
+KIND_TRACES = [[["DIFF", 2, 1], ["QLPC", [11, -7], ], ["BITSHIFT", 2], ["DIFF", 1, 1], ["ZERO"]],
+               [["QLPC", [5]], ["DIFF", 3, 1], ["BLOCKSIZE", 3], ["DIFF", 0, 1]]]
+
+
+def _kind_point(p, seed):
+    """one stream read through one kind of binary file object (named / anonymous / unbuffered / not
+    seekable / read()-only ...): exactly the encoded samples, as through io.BytesIO"""
+    import tempfile
+    from pydrobert.speech import util
+    from ..refs import sphere as sphref
+
+    h, which, kind = p["header"], p["which"], p["stream_kind"]
+    if which == "long":
+        enc = long_stream(h, seed)
+    else:
+        vals = Values.get(seed)
+        enc = make_encoder(h)
+        for op in KIND_TRACES[which]:
+            if not enabled(enc, op):
+                continue
+            for _ in range(1 if op[0] in ("BITSHIFT", "BLOCKSIZE") else h["nchan"]):
+                try:
+                    apply_op(enc, op, vals)
+                except S.InvalidTrace:
+                    apply_op(enc, FILLER, vals)
+        close_trace(enc, vals, True)
+    fb = enc.sphere_file()
+    want = _want(enc, False)
+    case = dict(kind="stream_kind", header=h, which=which, stream_kind=kind)
+    tags = dict(_base_tags(h), what="file_object", stream_kind=kind)
+    with tempfile.TemporaryDirectory(prefix="c13-kinds-") as tmp:
+        with sphref.open_stream(kind, fb, tmp) as f:
+            tags["name_attr"] = sphref.name_class(f)
+            old = signal.signal(signal.SIGALRM, _on_alarm)
+            signal.setitimer(signal.ITIMER_REAL, DECODE_LIMIT_S)
+            try:
+                r = computers.call(lambda: util.read_signal(f, force_as="sph"))
+            finally:
+                signal.setitimer(signal.ITIMER_REAL, 0)
+                signal.signal(signal.SIGALRM, old)
+    if r[0] != "ok":
+        return core.result([core.violation(dict(tags, aspect="exception", exc=r[1]),
+                                           "valid shorten stream (%d bytes) through a %s object raised %s: %s" % (
+                                               len(fb), kind, r[1], r[2]), case)], obs=[kind, "exc"])
+    got = r[1]
+    if not isinstance(got, np.ndarray) or got.shape != want.shape or got.dtype != want.dtype \
+            or not np.array_equal(got, want):
+        return core.result([core.violation(dict(tags, aspect="values"),
+                                           "shorten stream through a %s object: decoded %s %s differs from the "
+                                           "encoded samples %s %s" % (kind, getattr(got, "shape", None),
+                                                                      getattr(got, "dtype", None), want.shape,
+                                                                      want.dtype), case)], obs=[kind, "diff"])
+    return core.result([], obs=[kind, "ok"], impl_calls=1, sample=case)
+
+
+def _kind_points():
+    from ..refs import sphere as sphref
+
+    pts = []
+    hs = [dict(version=2, ftype=3, nchan=2, nmean=4, bs0=4, maxnlpc=3, final_short=True),
+          dict(version=1, ftype=8, nchan=1, nmean=0, bs0=4, maxnlpc=3, final_short=True)]
+    for kind in sphref.STREAM_KINDS:
+        for h in hs:
+            for which in (0, 1):
+                pts.append(dict(header=h, which=which, stream_kind=kind))
+        pts.append(dict(header=long_headers()[0], which="long", stream_kind=kind))
+    return pts
+
+
 # ------------------------------------------------------------------ vectors / oracle validation
 
 
@@ -831,6 +984,10 @@ def _replay(seed):
             return _badcmd_point(dict(header=case["header"], nops=case["nops"], code=case["code"]), seed)
         if k == "long":
             return _long_point(dict((kk, v) for kk, v in case.items() if kk != "kind"), seed)
+        if k == "boundary":
+            return _boundary_point(dict(header=case["header"], target=case["target"], length=case["length"]), seed)
+        if k == "stream_kind":
+            return _kind_point(dict(header=case["header"], which=case["which"], stream_kind=case["stream_kind"]), seed)
         if k == "badver":
             return _badver_point(dict(header=case["header"], byte=case["byte"]), seed)
         raise core.HarnessError("unknown case %r" % (case,))
@@ -902,6 +1059,22 @@ def subchecks(tier, seed, only=None):
             "encoded samples, and byte prefixes ending within +-5 bytes of each of the first reader "
             "refill points or inside the QUIT word must raise IOError",
             replay=replay, chunk=1, kind="trace_replay"))
+    if only in (None, "boundary_lengths"):
+        scs.append(core.SubCheck(
+            "boundary_lengths", [dict(header=h, target=t) for h in long_headers() for t in boundary_targets()],
+            lambda p: _boundary_point(p, seed),
+            "valid COMPLETE streams whose compressed length takes every attainable value (5 + 4k bytes) within "
+            "+-12 bytes of each point where the reader's buffer runs dry (first 16384-byte read, the next two "
+            "top-ups), 3 headers: the QUIT word lands on every position relative to the refill; decode equals "
+            "the encoded samples; non-trivial = the window is populated on both sides of the boundary",
+            replay=replay, chunk=1, kind="trace_replay"))
+    if only in (None, "stream_kinds"):
+        scs.append(core.SubCheck(
+            "stream_kinds", _kind_points(), lambda p: _kind_point(p, seed),
+            "2 short traces x 2 headers and one long stream read through every kind of binary file object "
+            "(BytesIO, named/unnamed/unbuffered files, fdopen, temporary and spooled files, a pipe, "
+            "BufferedReader, gzip, mmap, a read()-only object, odd .name attributes): exactly the encoded samples",
+            replay=replay, chunk=4, kind="trace_replay"))
     fh = fault_headers()
     scs += [
         core.SubCheck(
